@@ -141,6 +141,31 @@ def w19(arg):
                 for diff in range(128):
                     do((st, 1, 100, 1, 200, vrsrc, vrsign, 17, dsign, diff))
                     acc.out.add(("diff", dsign, diff))
+    elif mode == "pairs":
+        # joint conditions: every pair of the fourteen ME fields at every combination of their corner values (0, 1, top bit
+        # only, all ones), the other fields at a plausible default; per subtype
+        widths = [("f14", 1), ("a", 10), ("f25", 1), ("b", 10), ("vrsrc", 1), ("vrsign", 1), ("vr", 9), ("dsign", 1), ("diff", 7),
+                  ("ic", 1), ("ifr", 1), ("nac", 3), ("res", 2)]
+        dflt = {"f14": 1, "a": 100, "f25": 0, "b": 200, "vrsrc": 0, "vrsign": 0, "vr": 17, "dsign": 0, "diff": 5, "ic": 0, "ifr": 0, "nac": 0, "res": 0}
+
+        def corners(w):
+            return sorted({0, 1, 1 << (w - 1), (1 << w) - 1})
+        for st in items:
+            for i in range(len(widths)):
+                for j in range(i + 1, len(widths)):
+                    (n1, w1), (n2, w2) = widths[i], widths[j]
+                    for v1 in corners(w1):
+                        for v2 in corners(w2):
+                            f = dict(dflt)
+                            f[n1], f[n2] = v1, v2
+                            fields = (st, f["f14"], f["a"], f["f25"], f["b"], f["vrsrc"], f["vrsign"], f["vr"], f["dsign"], f["diff"])
+                            base = me19(*fields, ic=f["ic"], ifr=f["ifr"], nac=f["nac"], res=f["res"])
+                            msg = vary_case(F.es(base, 0x406B90, 5, 17 + (i + j) % 2), acc.n)
+                            acc.n += 1
+                            s_ = judge19(msg, expect19(*fields[:8]), dexp_of(f["dsign"], f["diff"]))
+                            if s_:
+                                acc.bad(s_ + ":joint_%s_%s" % (n1, n2), {"kind": "tc19", "msg": msg, "fields": list(fields)})
+            acc.out.add(("pairs", st))
     elif mode == "bg1":
         excl = list(range(1, 6)) + list(range(33, 41)) + list(range(46, 79)) + list(range(81, 89))
         masks = other_bits(112, excl)
@@ -257,6 +282,7 @@ def run(ctx):
     bgf = [(1, 0, 10, 1, 20, 1, 0, 30, 0, 9), (2, 1, 1023, 0, 1, 0, 1, 511, 1, 126), (3, 1, 0, 1, 300, 1, 0, 1, 0, 1),
            (4, 0, 512, 0, 0, 0, 0, 0, 0, 0), (3, 1, 1023, 0, 1, 1, 1, 2, 1, 2)]
     tasks += [("v", ("bg1", [f])) for f in bgf]
+    tasks += [("v", ("pairs", [st])) for st in (1, 2, 3, 4)]
     for tc in (5, 6, 7, 8):
         for c in chunks(range(128), 16):
             tasks.append(("s", (tc, list(c))))
@@ -276,4 +302,7 @@ def replay(case):
     else:
         st, f14, a, f25, b, vrsrc, vrsign, vr, dsign, diff = case["fields"]
         s = judge19(case["msg"], expect19(st, f14, a, f25, b, vrsrc, vrsign, vr), dexp_of(dsign, diff))
+        if s:
+            nm = ["f14", "a", "f25", "b", "vrsrc", "vrsign", "vr", "dsign", "diff", "ic", "ifr", "nac", "res"]
+            return [(s, case)] + [(s + ":joint_%s_%s" % (x, y), case) for i_, x in enumerate(nm) for y in nm[i_ + 1:]]
     return [(s, case)] if s else []
